@@ -122,6 +122,12 @@ func (n *Net) AddRule(r Rule) {
 	n.mu.Unlock()
 }
 
+// SetOnReq installs the request observer (safe while connections are live).
+func (n *Net) SetOnReq(f func(*ReqInfo)) { n.mu.Lock(); n.OnReq = f; n.mu.Unlock() }
+
+// SetOnResp installs the response observer (safe while connections are live).
+func (n *Net) SetOnResp(f func(*ReqInfo, []byte)) { n.mu.Lock(); n.OnResp = f; n.mu.Unlock() }
+
 // SetMode sets the network-wide behaviour: every response delayed by d, and/or swallowed.
 func (n *Net) SetMode(delayAll time.Duration, blackhole bool) {
 	n.mu.Lock()
@@ -281,8 +287,11 @@ func (c *conn) Write(p []byte) (int, error) {
 			ri.Frame = append([]byte(nil), frame...)
 		}
 		rule := c.n.decide(ri)
-		if f := c.n.OnReq; f != nil {
-			f(ri)
+		c.n.mu.Lock()
+		onReq := c.n.OnReq
+		c.n.mu.Unlock()
+		if onReq != nil {
+			onReq(ri)
 		}
 		if rule.Act == KillBefore {
 			c.Conn.Close()
@@ -342,8 +351,11 @@ func (c *conn) Read(p []byte) (int, error) {
 			ri.Handled = true
 			c.n.mu.Unlock()
 			rule = ri.rule
-			if f := c.n.OnResp; f != nil {
-				f(ri, body)
+			c.n.mu.Lock()
+			onResp := c.n.OnResp
+			c.n.mu.Unlock()
+			if onResp != nil {
+				onResp(ri, body)
 			}
 		}
 		switch rule.Act {
